@@ -177,10 +177,36 @@ BINOPS = {"Add", "Sub", "Mul", "Div", "Rem", "BitXor", "BitAnd", "BitOr", "Shl",
 UNOPS = {"Not", "Neg", "PtrMetadata"}
 
 
+def _try_cast(s):
+    if not (s.endswith(")") and " as " in s) or s.startswith('const "'):
+        return None
+    depth, i = 0, len(s) - 1
+    while i >= 0:
+        if s[i] == ")":
+            depth += 1
+        elif s[i] == "(":
+            depth -= 1
+            if depth == 0:
+                break
+        i -= 1
+    kind = s[i + 1:-1]
+    head = s[:i].rstrip()
+    k = head.find(" as ")
+    if i > 0 and k > 0 and s[i - 1] == " " and re.match(r"(IntToInt|IntToFloat|FloatToInt|FloatToFloat|Transmute|PtrToPtr|FnPtrToPtr|PointerCoercion|PointerExposeProvenance|PointerWithExposedProvenance)(\(.*\))?$", kind):
+        try:
+            return Rvalue("cast", op=parse_operand(head[:k]), ty=head[k + 4:], cast=kind)
+        except MirSyntax:
+            return None
+    return None
+
+
 def parse_rvalue(s):
     s = s.strip()
     if s.startswith("no_retag "):
         s = s[9:]
+    c = _try_cast(s)
+    if c is not None:
+        return c
     for pre, mut in (("&raw mut ", True), ("&raw const ", False), ("&mut ", True), ("&", False)):
         if s.startswith(pre):
             rest = s[len(pre):]
@@ -188,14 +214,25 @@ def parse_rvalue(s):
             return Rvalue("ref", place=parse_place(rest), mut=mut, raw=pre.startswith("&raw"))
     if s.startswith(("copy ", "move ", "const ")):
         # possibly a cast: `<operand> as <type> (<kind>)`
-        j = skip_balanced(s, 0, "\x00")
-        m = re.search(r" as (.+) \(([A-Za-z]+(?:\(.*\))?)\)$", s)
-        if m and s.endswith(")") and not s.startswith("const \""):
-            head = s[:m.start()]
-            try:
-                return Rvalue("cast", op=parse_operand(head), ty=m.group(1), cast=m.group(2))
-            except MirSyntax:
-                pass
+        if s.endswith(")") and " as " in s and not s.startswith('const "'):
+            # `<operand> as <type> (<CastKind(..)>)`: the cast kind is the last parenthesised group
+            depth, i = 0, len(s) - 1
+            while i >= 0:
+                if s[i] == ")":
+                    depth += 1
+                elif s[i] == "(":
+                    depth -= 1
+                    if depth == 0:
+                        break
+                i -= 1
+            kind = s[i + 1:-1]
+            head = s[:i].rstrip()
+            k = head.find(" as ")
+            if i > 0 and k > 0 and re.match(r"[A-Z][A-Za-z]+(\(.*\))?$", kind):
+                try:
+                    return Rvalue("cast", op=parse_operand(head[:k]), ty=head[k + 4:], cast=kind)
+                except MirSyntax:
+                    pass
         return Rvalue("use", op=parse_operand(s))
     if s.startswith("discriminant("):
         return Rvalue("discriminant", place=parse_place(s[len("discriminant("):-1]))
@@ -290,7 +327,7 @@ class Func:
     def parse(self):
         if self.blocks is not None:
             return self
-        self.blocks = {}
+        blocks = {}
         for m in re.finditer(r"^    let (?:mut )?_(\d+): (.+);$", self.text, re.M):
             self.locals[int(m.group(1))] = m.group(2)
         for m in re.finditer(r"^ +let (?:mut )?_(\d+): (.+);$", self.text, re.M):
@@ -301,9 +338,10 @@ class Func:
             lines = [ln.strip() for ln in m.group(3).split("\n") if ln.strip()]
             stmts = [parse_stmt(ln) for ln in lines[:-1]]
             term = parse_term(lines[-1])
-            self.blocks[int(m.group(1))] = ([s for s in stmts if s is not None], term, bool(m.group(2)))
-        if 0 not in self.blocks:
+            blocks[int(m.group(1))] = ([s for s in stmts if s is not None], term, bool(m.group(2)))
+        if 0 not in blocks:
             raise MirSyntax(f"function {self.name} has no bb0")
+        self.blocks = blocks
         return self
 
 
